@@ -83,12 +83,20 @@ def classify_file(data):
     out = []
     verdict = None
     for line in text.split("\n"):
-        for ch in line:
-            if (ord(ch) < 32 and ch != "\t") or ord(ch) == 127:
-                return ("unspecified", "control-char")
         core_line = line.strip(" ")
         if core_line == "":
             continue
+        ctrl = [i for i, ch in enumerate(core_line) if (ord(ch) < 32 and ch != "\t") or ord(ch) == 127]
+        # (a header line runs to the line terminator \n, \r\n or \r; whatever else it contains is ignored, control characters included)
+        if ctrl and core_line[0] != ">":
+            # an ASCII control character is "any other character" when it stands strictly inside a sequence line (a residue before it and
+            # a residue after it on the same line); at the edge of a line (where blank-like characters are trimmed) it stays unspecified
+            if all(any(c in ref.AA for c in core_line[:i]) and any(c in ref.AA for c in core_line[i + 1:]) for i in ctrl) \
+                    and not any(c == "\t" for c in core_line):
+                verdict = verdict or ("reject", "foreign-char")
+                seen_seq = True
+                continue
+            return ("unspecified", "control-char")
         if core_line[0] != ">" and core_line != core_line.strip():       # a tab at the edge of a sequence line
             return ("unspecified", "edge-tab")
         if core_line.strip() == "":
@@ -183,8 +191,8 @@ def check(ctx, case):
     check_bytes(ctx, data, case, tuple(exp) if exp else None)
 
 
-FOREIGN = "abcdefghijklmnopqrstuvwxyzBJOUXZ!\"#$%&'()+,-./:;<=>?@[\\]^_`{|}~\t"
-HEADER_CHARS = [chr(i) for i in range(32, 127)] + ["\t"]
+FOREIGN = "abcdefghijklmnopqrstuvwxyzBJOUXZ!\"#$%&'()+,-./:;<=>?@[\\]^_`{|}~\t" + "\x00\x07\x0b\x0c\x1b\x1c\x1d\x1e\x1f\x7f"
+HEADER_CHARS = [chr(i) for i in range(32, 127)] + ["\t", "\x0b", "\x0c", "\x1c", "\x1d", "\x1e", "\x7f", "M", "K", "E", " "]
 
 
 @st.composite
@@ -246,7 +254,10 @@ def hyp_case(draw, max_len):
     expect = ["ok", L["seq"]]
     if kind == "second-header" and L["has_header"]:
         at = draw(st.integers(1, len(lines)))
-        lines.insert(at, ">" + draw(st.lists(st.sampled_from(HEADER_CHARS), max_size=10).map("".join)))
+        # the second header may be indented like any other line (and so may the first)
+        lines.insert(at, " " * draw(st.sampled_from([0, 0, 1, 2, 4])) + ">" + draw(st.lists(st.sampled_from(HEADER_CHARS), max_size=10).map("".join)))
+        if draw(st.integers(0, 3)) == 0:
+            lines[0] = " " * draw(st.integers(1, 3)) + lines[0]
         expect = ["reject", "second-header"]
     elif kind == "star-before-end" and len(L["seq"]) >= 2:
         # put a '*' strictly before the last residue
@@ -273,6 +284,8 @@ def hyp_case(draw, max_len):
             p = draw(st.sampled_from(respos[1:]))
             lines[li] = line[:p] + draw(st.sampled_from(FOREIGN)) + line[p:]
             expect = ["reject", "foreign-char"]
+    if expect[0] == "ok" and L["has_header"] and draw(st.integers(0, 5)) == 0:
+        lines[0] = " " * draw(st.integers(1, 3)) + lines[0]
     data = render(lines, L["eol"], L["trailing"])
     return {"hex": data.hex(), "expect": expect, "text": data.decode("ascii"), "permutants": draw(st.integers(0, 7)) == 0, "alias": draw(st.integers(0, 3)) == 0}
 
@@ -308,6 +321,17 @@ def enum_cases(tier, seed):
             for p in (1, 3):
                 lines = base[:-1] + [line[:p] + bytes([byte]) + line[p:]]
                 yield {"hex": (b"\n".join(lines) + b"\n").hex(), "expect": ["reject", "foreign-char"]}
+    for ind1 in ("", " ", "   "):
+        for ind2 in ("", " ", "  ", "    "):
+            for second_at in (1, 2, 3):
+                lines = [ind1 + ">first record", "MKVLA GSEDK", "RRPYT"]
+                lines.insert(second_at, ind2 + ">second record")
+                yield {"hex": render(lines, "\n", True).hex(), "expect": ["reject", "second-header"]}
+            yield {"hex": render([ind1 + ">first record", "MKVLA GSEDK", ind2 + "RRPYT"], "\n", True).hex(), "expect": ["ok", "MKVLAGSEDKRRPYT"]}
+    for ch in "\x00\x07\x0b\x0c\x1b\x1c\x1d\x1e\x1f\x7f":
+        # inside the header line a control character is part of the header (ignored), whatever follows it
+        for tail in ("MAP KINASE 1", "", " GSEDK", "10"):
+            yield {"hex": render([">sp|P28482|MK01_HUMAN" + ch + tail, "MKVLA GSEDK", "RRPYT"], "\n", True).hex(), "expect": ["ok", "MKVLAGSEDKRRPYT"]}
     for a in ref.AA:
         yield {"hex": a.encode().hex(), "expect": ["ok", a]}
         yield {"hex": (">h\n" + a + "*\n").encode().hex(), "expect": ["ok", a]}
